@@ -96,8 +96,13 @@ CLAIMED = {
         text='Partial. For the edge loop shared by MeshBase._compute_edge_info and Polyface3D.__init__ (hand model EdgeInfo.v, tied '
              'by vm_compute correspondence on random tri/quad face lists) it is proved for every face list that each undirected edge is '
              'listed exactly once, that its type + 1 is the number of face incidences, and that is_solid holds iff every edge is used '
-             'exactly twice. Outward orientation, volume and the reaction to removed/duplicated faces are searched on shuffled, flipped, '
-             're-started closed solids against the exact divergence volume and an independent incidence count.',
+             'exactly twice. For the volume formula (hand model Volume.v of Polyface3D.volume: faces with hole loops, compared with the '
+             'implementation on shuffled / flipped / re-started solids to 1e-9) it is proved for every closed consistently oriented '
+             'surface - every directed edge matched by its opposite - that the value is translation invariant, does not depend on '
+             'which vertex (or plane point) each face starts at, is multiplied by det M under any linear map (k^3 for scaling), is '
+             'the determinant for a tetrahedron and the sum of the pieces for every solid assembled from tetrahedra glued along '
+             'coincident opposite faces. Outward orientation and the reaction to removed/duplicated faces are searched on shuffled, '
+             'flipped, re-started closed solids against the exact divergence volume and an independent incidence count.',
         note='Partial: get_outward_faces (ray parity) and from_faces welding are validated, not proved. Trusted: Coq kernel, the hand '
              'model and its correspondence, harness.',
         technique='machine-checked Coq proof about a hand-written executable model + vm_compute correspondence with the '
